@@ -177,6 +177,8 @@ def cases(tier):
                     format(a, '#' + fmt).lower() if spec == 'X' else format(a, '#' + fmt))
         for base in (2, 10, 1 << 31, 1 << 32, (1 << 63) - 1, 1 << 63, (1 << 63) + 1, 1 << 64, (1 << 64) + 1, 1 << 127, 10 ** 19):
             # any sign, any base magnitude: the digits rebuild the number, each is smaller than the base and none has the other sign
+            if abs(a).bit_length() > 450 * (base.bit_length() - 1):
+                continue    # more digits than a dump shows
             add('digits-law|%d|%d' % (a, base), 'digits(%s, %s)' % (xint(a), xint(base)), pred('digits_rebuild', a, base))
         if a >= 0:
             for base in (2, 3, 7, 10, 16, 36, 1 << 64):
@@ -252,6 +254,18 @@ def cases(tier):
             for k in ks:
                 num //= math.factorial(k)
             add('multinom|%s' % ','.join(map(str, ks)), 'multinom([%s])' % ', '.join(map(str, ks)), num)
+    # folds over sequences and generators (their own accumulation loops)
+    for a in P:
+        for b in P:
+            add('sum-seq|%d|%d' % (a, b), 'sum([%s, %s])' % (xint(a), xint(b)), a + b)
+            add('product-seq|%d|%d' % (a, b), 'product([%s, %s])' % (xint(a), xint(b)), a * b)
+    sub = [v for v in P if abs(v) in (0, 1, 3, (1 << 31), (1 << 32) + 1, (1 << 63) - 1, 1 << 63, (1 << 63) + 1, 1 << 64, 10 ** 19)]
+    for a in sub:
+        for b in sub:
+            for c in sub:
+                add('sum-gen|%d|%d|%d' % (a, b, c), '[%s, %s, %s].to_generator().sum()' % (xint(a), xint(b), xint(c)), a + b + c)
+                add('product-gen|%d|%d|%d' % (a, b, c), '[%s, %s, %s].to_generator().product()' % (xint(a), xint(b), xint(c)), a * b * c)
+                add('sum-seq3|%d|%d|%d' % (a, b, c), '[%s, %s, %s].sum()' % (xint(a), xint(b), xint(c)), a + b + c)
     edge = []
     for k in (31, 32, 63, 64) if tier == 'quick' else (31, 32, 62, 63, 64, 65, 127, 128):
         edge += [(1 << k) + d for d in ((-2, -1, 0, 1) if tier == 'quick' else (-3, -2, -1, 0, 1, 2))]
